@@ -122,3 +122,18 @@ Theorem C17_not_deferred_wedges :
             forall u, exists s', istep cfg_not_deferred s (ISwap u) = Some s' /\ i_pc s' u = Swapped true.
 Proof. exact not_deferred_wedges. Qed.
 Print Assumptions C17_not_deferred_wedges.
+
+(* an isolated job wrapped again (and again), every handle of the chain in use: executions entering
+   through ANY two handles both hold the innermost gate h0 while inside the job, so they are callers of
+   one isolated job and the theorems above apply to them *)
+Theorem C17_chain_common_gate : forall i j,
+  In 0 (gates_passed iso_ctor_wraps_argument i) /\ In 0 (gates_passed iso_ctor_wraps_argument j).
+Proof. exact chain_common_gate. Qed.
+Print Assumptions C17_chain_common_gate.
+
+(* sensitivity: a constructor that looks through an isolated argument leaves h0 and h1 without a common gate *)
+Theorem C17_unwrapping_ctor_splits_gates :
+  gates_passed false 0 = [0] /\ gates_passed false 1 = [1] /\
+  forall g, In g (gates_passed false 0) -> In g (gates_passed false 1) -> False.
+Proof. exact unwrapping_ctor_splits_gates. Qed.
+Print Assumptions C17_unwrapping_ctor_splits_gates.
